@@ -343,12 +343,12 @@ type violationOut struct {
 }
 
 type caseResult struct {
-	Evals        int               `json:"evals"`
-	Counters     map[string]int64  `json:"counters"`
-	Fingerprints []string          `json:"fingerprints"`
-	Violations   []violationOut    `json:"violations"`
-	Inconclusive []string          `json:"inconclusive"`
-	Samples      []map[string]any  `json:"samples"`
+	Evals        int              `json:"evals"`
+	Counters     map[string]int64 `json:"counters"`
+	Fingerprints []string         `json:"fingerprints"`
+	Violations   []violationOut   `json:"violations"`
+	Inconclusive []string         `json:"inconclusive"`
+	Samples      []map[string]any `json:"samples"`
 	fpSet        map[string]bool
 }
 
@@ -385,18 +385,18 @@ func makeEvent(ev *evSpec, size int) *pipeline.Event {
 
 // judged is the state of the coverage accounting of one batch.
 type batchJudge struct {
-	s        *session
-	b        *batchSpec
-	exp      []evSpec
-	next     int
-	fails    []*failure
-	rejected int
-	single413 int // index (in exp) of an event rejected alone with 413, or -1
-	firstOK  bool // the first attempt's body satisfied the oracle
+	s         *session
+	b         *batchSpec
+	exp       []evSpec
+	next      int
+	fails     []*failure
+	rejected  int
+	single413 int  // index (in exp) of an event rejected alone with 413, or -1
+	firstOK   bool // the first attempt's body satisfied the oracle
 	// resendOnly: the first attempt never reached the sink (connection
 	// refused); every payload seen was built for a retry
 	resendOnly bool
-	attempts int
+	attempts   int
 }
 
 // alignAndCheck compares the records of one capture with exp[start:] and
